@@ -10,4 +10,15 @@ CancelT == [w \in {1} |-> TRUE]
 CancelF == [w \in {1} |-> FALSE]
 CancelTF == (1 :> TRUE) @@ (2 :> FALSE)
 NoCancel == [w \in {} |-> TRUE]
+AllCalls == [x \in 1..4 |-> "call"]
+NoLoad == [x \in 1..4 |-> 0]
+\* producer mixes (kind, drain time) for 3 / 4 submissions
+K_acf == (1 :> "await") @@ (2 :> "call") @@ (3 :> "afail") @@ (4 :> "call")
+L_acf == (1 :> 3) @@ (2 :> 0) @@ (3 :> 1) @@ (4 :> 0)
+K_cae == (1 :> "call") @@ (2 :> "await") @@ (3 :> "empty") @@ (4 :> "await")
+L_cae == (1 :> 0) @@ (2 :> 2) @@ (3 :> 0) @@ (4 :> 1)
+K_eaa == (1 :> "empty") @@ (2 :> "await") @@ (3 :> "await") @@ (4 :> "call")
+L_eaa == (1 :> 0) @@ (2 :> 1) @@ (3 :> 4) @@ (4 :> 0)
+K_aaa == [x \in 1..4 |-> "await"]
+L_222 == [x \in 1..4 |-> 2]
 =============================================================================
